@@ -31,25 +31,38 @@ MANIFEST_ENTRY = dict(
     engine='partition',
     technique='TLA+ L1 acceptance condition (specs/partition/PartitionRules.tla) checked by TLC on recorded outputs of the real '
               'partitioning passes (PartitionAbs.tla, batch trace validation) and as the postcondition of an exhaustively '
-              'model-checked L2 model of QuickPartitioner (QuickPart.tla) whose enumerated circuits are replayed into the real pass',
+              'model-checked L2 model of QuickPartitioner (QuickPart.tla); model-based test generation: TLC enumerates and searches for '
+              'the circuits in which a given mechanism of the algorithm decides (history variable `mech`), those circuits are replayed '
+              'into the real pass under every iteration order it can be made to take',
     text='QuickPart.tla (bins, active/pending lists, blocked qudits, dividing line, barrier bins, merge step, the nondeterministic '
          'set-iteration order of overlapping bins) is model-checked by TLC for every circuit of up to 4 operations on 3 qudits and 3 on 4 '
          'qudits (thorough: 5 and 4), gates of arity 1-3 plus barriers on every qudit set, block sizes 2-3, and for every 7-operation '
          '(thorough 8) continuation of a scenario that reaches the mid-scan flush; postcondition: no pending bin is left and the output '
          'satisfies the L1 condition (every operation once, same order on every qudit, barriers bare and not crossed, width <= '
-         'max(block size, widest gate inside), locations and parameters unchanged). Every partitioner (Quick, Scan, Clustering, Greedy, '
-         'GroupSingleQuditGate, GTQCP, TDAG), driven directly as a coroutine, is run on the TLC-enumerated circuits and on seeded random '
-         'circuits (width 2-12, up to 80 operations in quick; width 2-20, up to 700 operations in thorough; 1/2/3-qudit gates with unique '
-         'tags and parameters, barriers, measurements, resets, already-blocked inputs, block sizes 2-6); every output, and its '
-         'unfold_all(), is judged by TLC against PartitionRules. The real QuickPartitioner is compared block by block with the model on '
-         'the enumerated circuits.',
+         'max(block size, widest gate inside), locations and parameters unchanged). The model carries a history variable with the '
+         'mechanisms that made a difference in the run (13 of them; three are defined by shadow copies of Bin.blocked_qudits that follow '
+         'the rule the code would follow without the transitive update / without relating bins through blocked qudits / without the '
+         'barrier branch blocking foreign qudits, and are marked exactly when can_accommodate answers differently with the shadow set). '
+         'Directed exhaustive searches (a state constraint that drops every prefix from which the mechanism cannot be reached any more) '
+         'find all circuits of 5 operations on 6 qudits (block size 3, gates of arity 2-3) in which the transitive part of the blocked '
+         'set decides, and all of 4 operations on 5 qudits in which the relation through blocked qudits decides (thorough: wider, '
+         'longer, arity 1-3, block sizes 2-4); together with the circuits of the exhaustive runs that show a rare mechanism, and wider '
+         'circuits (up to 10 qudits) that contain them, they are given back to the model as scripts (every iteration order, L1 '
+         'postcondition) and run on the real QuickPartitioner under 8 values of the process-wide Bin.id counter, which decides the '
+         'iteration order there; block structure is compared with the model (DRIFT) and every output is judged by L1. Every partitioner '
+         '(Quick, Scan, Clustering, Greedy, GroupSingleQuditGate, GTQCP, TDAG), driven directly as a coroutine, is run on the '
+         'TLC-enumerated circuits, on the generated ones and on seeded random circuits (width 2-12, up to 80 operations in quick; width '
+         '2-20, up to 700 operations in thorough; 1/2/3-qudit gates with unique tags and parameters, barriers, measurements, resets, '
+         'already-blocked inputs, block sizes 2-6); every output, and its unfold_all(), is judged by TLC against PartitionRules.',
     note='Known findings (open, known_findings.d/C08.json): QuickPartitioner raises "Unable to process all pending bins" on circuits with '
          'two barriers (found by TLC on the L2 model, reproduced; the repaired model BarrierFix=TRUE is model-checked in the thorough tier); '
-         'GreedyPartitioner duplicates/reorders operations and absorbs barriers; Scan/Clustering/GTQCP/TDAG absorb barrier-like operations '
-         'into blocks; Greedy/Clustering crash when block_size > width. Inputs with an operation wider than the block size are outside the '
-         'domain of Scan/Clustering/GTQCP/TDAG (they refuse them). Barriers and resets cannot carry a tag: their identity is (kind, '
-         'location, occurrence). Trusted: TLC, the observation code in harness/checks/c08.py. QuickPart-vs-code disagreements are '
-         'reported as DRIFT, never as violations.',
+         'GreedyPartitioner duplicates/reorders operations, absorbs barriers, and raises "Unable to topologically sort regions" on a chain '
+         'of three mutually dependent regions (found with the circuits generated for QuickPartitioner\'s transitive rule); '
+         'Scan/Clustering/GTQCP/TDAG absorb barrier-like operations into blocks. Inputs with an operation wider than the block size are '
+         'outside the domain of Scan/Clustering/GTQCP/TDAG (they refuse them). Barriers and resets cannot carry a tag: their identity is '
+         '(kind, location, occurrence). The mechanisms "merge-super" (a placed block swallows a later one) and the preference for an '
+         'admissible bin that already holds every qudit never make a difference in any explored run. Trusted: TLC, the observation code in '
+         'harness/checks/c08.py. QuickPart-vs-code disagreements are reported as DRIFT, never as violations.',
     ref='DESIGN.md section 4 / C08',
 )
 
@@ -288,10 +301,25 @@ def run_pass(p, circ):
     raise MachineryError('%s awaited the runtime; it cannot be driven as a plain coroutine' % type(p).__name__)
 
 
+def pin_bin_id(value):
+    """QuickPartitioner visits overlapping bins in the iteration order of a set of Bin objects hashed by Bin.id, a process-wide
+    counter: the value of the counter when the pass starts is an input of the run.  Returns False when the counter cannot be set
+    (the attribute is gone: the run is then simply not pinned)."""
+    try:
+        from bqskit.passes.partitioning import quick as qm
+        if not isinstance(getattr(qm.Bin, 'id', None), int):
+            return False
+        qm.Bin.id = int(value)
+        return True
+    except Exception:       # noqa
+        return False
+
+
 def observe(job):
-    """job = (recipe, pname, bs, npseed) -> case dict (JSON-able) or {'skip': reason}."""
+    """job = (recipe, pname, bs, npseed[, binid]) -> case dict (JSON-able) or {'skip': reason}."""
     import numpy as np
-    recipe, pname, bs, npseed = job
+    recipe, pname, bs, npseed = job[:4]
+    binid = job[4] if len(job) > 4 else None
     warnings.filterwarnings('ignore')
     circ, meta = build(recipe)
     n = recipe['nq']
@@ -304,6 +332,7 @@ def observe(job):
     np.random.seed(npseed % (2 ** 32))
     random.seed(npseed)
     p = make_pass(pname, bs)
+    pinned = pin_bin_id(binid) if (pname == 'quick' and binid is not None) else False
     raised = ''
     try:
         run_pass(p, circ)
@@ -320,7 +349,8 @@ def observe(job):
         unf = _leafseq(circ, meta)
     eff_bs = 1 if pname == 'single' else bs
     return {'p': pname, 'bs': eff_bs, 'nq': n, 'inseq': inseq, 'oploc': meta['oploc'], 'kind': meta['kind'], 'par': meta['par'],
-            'out': out, 'unf': unf, 'inleaf': inleaf, 'raised': raised, 'recipe': recipe, 'npseed': npseed, 'cfg_bs': bs}
+            'out': out, 'unf': unf, 'inleaf': inleaf, 'raised': raised, 'recipe': recipe, 'npseed': npseed, 'cfg_bs': bs,
+            'binid': binid if pinned else None}
 
 
 def fit_domain(rec, bs):
@@ -388,13 +418,42 @@ QP_CONFIGS = {
 }
 QP_ACTIONS = ['StepBarrier', 'StepGateNewBin', 'StepGateJoinBin', 'MidFlush', 'Finalize']
 
+# Mechanisms of the algorithm that QuickPart.tla marks in its history variable `mech` when they make a difference (same names
+# and order as Mechs in the specification).
+MECHS = ['trans', 'indirect', 'barblock', 'blocked', 'blocked-active', 'wide-bin', 'reentry', 'multi-adm', 'multi-overlap',
+         'barrier-partial', 'merge-sub', 'merge-super', 'midflush']
+# The ones that are rare enough for every circuit showing them to be printed by the exhaustive runs (<<"QPM", ...>>) and fed back
+# as a script; the frequent ones are exercised by the EmitMod sample.
+RARE_MECHS = ['trans', 'indirect', 'barblock', 'blocked', 'blocked-active', 'merge-super', 'midflush']
 
-def qp_cfg(path, nq, maxops, bss, arities, barmode, emitmod, fix, prefix='none'):
+# Directed exhaustive searches (CONSTRAINT Directed) for circuits, wider than the plain configurations reach, in which one part of
+# the blocked-qudit bookkeeping decides an admissibility test:
+#   name: (Target, [(NQ, MaxOps, BlockSizes, GateArities, BarrierMode) quick], [... thorough])
+QP_SEARCH = {
+    'trans': ('trans', [(6, 5, '{3}', '{2, 3}', 'none')],
+              [(6, 5, '{2, 3, 4}', '{1, 2, 3}', 'none'), (7, 5, '{3}', '{2, 3}', 'none'), (5, 6, '{3}', '{2, 3}', 'none')]),
+    'indirect': ('indirect', [(5, 4, '{2, 3}', '{2, 3}', 'none')],
+                 [(6, 4, '{2, 3, 4}', '{1, 2, 3}', 'none'), (5, 5, '{3}', '{2, 3}', 'none')]),
+}
+# Random walks of the model (`tlc -simulate`, thorough tier only): circuits of exactly MaxOps operations, wider than any exhaustive
+# run, one iteration order each; the ones showing a rare mechanism are fed back like the others.
+#   (NQ, MaxOps, BlockSizes, GateArities, BarrierMode, number of walks)
+QP_SIM = [(7, 9, '{2, 3, 4}', '{1, 2, 3}', 'none', 500), (6, 8, '{2, 3}', '{1, 2, 3}', 'any', 500)]     # about one walk per second
+# how many of the circuits found are fed back (scripts) per mechanism and source, quick / thorough
+SCRIPTS_PER_MECH = (40, 400)
+PINS = list(range(8))          # values of the Bin.id counter tried on every script (set iteration order depends on id mod 8)
+
+
+def qp_cfg(path, nq, maxops, bss, arities, barmode, emitmod, fix, prefix='none', *, minfinal=1, emitmechs=(), slack=99,
+           target='trans', directed=False):
     with open(path, 'w') as f:
         f.write('SPECIFICATION Spec\nCONSTANTS\n  NQ = %d\n  MaxOps = %d\n  BlockSizes = %s\n  GateArities = %s\n'
                 '  BarrierMode = "%s"\n  Threshold = 5\n  BarrierFix = %s\n  PrefixMode = "%s"\n  EmitMod = %d\n'
-                'INVARIANTS AssertsHold Shape%s\nCHECK_DEADLOCK FALSE\n'
-                % (nq, maxops, bss, arities, barmode, 'TRUE' if fix else 'FALSE', prefix, emitmod, ' ResOK' if fix else ''))
+                '  MinFinal = %d\n  EmitMechs = {%s}\n  Slack = %d\n  Target = "%s"\n'
+                'INVARIANTS AssertsHold Shape%s\n%sCHECK_DEADLOCK FALSE\n'
+                % (nq, maxops, bss, arities, barmode, 'TRUE' if fix else 'FALSE', prefix, emitmod,
+                   minfinal, ', '.join('"%s"' % m for m in emitmechs), slack, target,
+                   ' ResOK' if fix else '', 'CONSTRAINT Directed\n' if directed else ''))
 
 
 _TOK = re.compile(r'<<|>>')
@@ -447,34 +506,112 @@ def _structure_real(case):
     return frozenset(items)
 
 
+def iteration_order(ops):
+    """ops (dicts with 'loc') sorted into Circuit.operations_with_cycles() order: cycle-major, then by the smallest qudit, where
+    the cycle of an operation is the one Circuit.append gives it (first cycle after everything already on its qudits)."""
+    last = {}
+    keyed = []
+    for i, o in enumerate(ops):
+        cyc = max([last.get(q, -1) for q in o['loc']]) + 1
+        for q in o['loc']:
+            last[q] = cyc
+        keyed.append((cyc, min(o['loc']), i))
+    return [ops[i] for _, _, i in sorted(keyed)]
+
+
+def circ_of(recipe):
+    """The model's view of a recipe made of gates and barriers with ascending locations: [[is_barrier, loc], ...]."""
+    return [[1 if o['k'] == 'b' else 0, list(o['loc'])] for o in recipe['ops']]
+
+
+def embed(recipe, rng):
+    """A wider circuit that contains `recipe` unchanged: its qudits mapped by an increasing map into a wider register (the order in
+    which the sweep meets the operations is kept), gates and barriers on the other qudits mixed in, a few operations anywhere
+    appended.  Returned in iteration order, locations ascending (so that it can also be given to the model as a script)."""
+    n = recipe['nq']
+    wide = n + rng.randint(1, 4)
+    pos = sorted(rng.sample(range(wide), n))
+    rest = [q for q in range(wide) if q not in pos]
+    ops = [dict(o, loc=sorted(pos[q] for q in o['loc'])) for o in recipe['ops']]
+    for _ in range(rng.randint(1, 4)):
+        k = rng.randint(1, min(2, len(rest)))
+        o = {'k': 'b' if rng.random() < 0.15 else 'g', 'loc': sorted(rng.sample(rest, k)), 'v': rng.randrange(6)}
+        ops.insert(rng.randint(0, len(ops)), o)
+    for _ in range(rng.randint(0, 4)):
+        k = rng.choice([1, 2, 2, 3])
+        ops.append({'k': 'g', 'loc': sorted(rng.sample(range(wide), k)), 'v': rng.randrange(6)})
+    return {'nq': wide, 'ops': iteration_order(ops)}
+
+
+def _tlc_parallel(runs, scratch):
+    """runs = [(name, cfg, coverage, extra keyword arguments of common.tlc)] -> {name: TlcResult}; the JVMs run side by side
+    (start-up and the narrow first levels of a breadth-first search do not use many cores)."""
+    from concurrent.futures import ThreadPoolExecutor
+    w = max(2, (os.cpu_count() or 4) // max(1, min(len(runs), 4)))
+
+    def one(r):
+        name, cfg, cov, kw = r
+        kw = dict(kw or {})
+        kw.setdefault('workers', w)
+        return name, common.tlc(QP, cfg, coverage=cov, scratch=scratch, timeout=3000, heap='4g', **kw)
+    with ThreadPoolExecutor(max(1, len(runs))) as ex:
+        return dict(ex.map(one, runs))
+
+
 def run_model(ctx, out, stats):
-    """Model-check QuickPart.tla; returns (emitted circuits [(bs, nq, circ_out, {model outcomes})], L2 counterexamples)."""
+    """Model-check QuickPart.tla.  Returns (emitted circuits {(bs, nq, circuit): {model outcomes}}, L2 counterexamples,
+    found {(bs, nq, circuit): {'mechs': set, 'src': name}} -- circuits in which a rare mechanism made a difference)."""
     emitted = {}
     l2bad = []
+    found = {}
     cov = {a: 0 for a in QP_ACTIONS}
     runs = []
+    todo = []
+    meta = {}
     for name, (nq, mq, mt, bss, ar, bm, eq, et, prefix) in QP_CONFIGS.items():
         for fix in (False, True):
             if fix and (ctx.quick or name != 'q3'):
                 continue        # the repaired algorithm is model-checked in the thorough tier only
+            rname = name + ('+fix' if fix else '')
             cfg = os.path.join(ctx.scratch, 'QuickPart_%s%s.cfg' % (name, '_fix' if fix else ''))
             maxops = mq if ctx.quick else mt
-            qp_cfg(cfg, nq, maxops, bss, ar, bm, 0 if fix else (eq if ctx.quick else et), fix, prefix)
-            r = common.tlc(QP, cfg, coverage=not fix, scratch=ctx.scratch, timeout=3000)
-            if not r.ok:
-                if fix and 'ResOK' in r.out and 'is violated' in r.out:
-                    out.notes.append('NOTE property=C08 the proposed repair of QuickPartitioner (BarrierFix) does not satisfy the postcondition '
-                                     'in configuration %s: %s' % (name, r.error[:300].replace('\n', ' ')))
-                    continue
-                raise MachineryError('TLC failed on QuickPart.tla (%s%s): %s' % (name, ' fix' if fix else '', r.error or r.out[-1500:]))
-            stats['states'] += r.distinct
-            stats['transitions'] += r.states
-            runs.append({'config': name, 'fix': fix, 'NQ': nq, 'MaxOps': maxops, 'states': r.distinct, 'transitions': r.states,
-                         'depth': r.depth, 'wall_s': round(r.wall, 1)})
-            if fix:
+            qp_cfg(cfg, nq, maxops, bss, ar, bm, 0 if fix else (eq if ctx.quick else et), fix, prefix,
+                   emitmechs=() if fix else RARE_MECHS)
+            todo.append((rname, cfg, not fix, None))
+            meta[rname] = dict(config=name, fix=fix, NQ=nq, MaxOps=maxops, kind='exhaustive')
+    for name, (target, quick, thorough) in QP_SEARCH.items():
+        for j, (nq, maxops, bss, ar, bm) in enumerate(quick if ctx.quick else quick + thorough):
+            rname = '%s-search%d' % (name, j)
+            cfg = os.path.join(ctx.scratch, 'QuickPart_%s.cfg' % rname)
+            qp_cfg(cfg, nq, maxops, bss, ar, bm, 0, False, 'none', emitmechs=[target], slack=maxops - 3, target=target, directed=True)
+            todo.append((rname, cfg, False, None))
+            meta[rname] = dict(config=rname, fix=False, NQ=nq, MaxOps=maxops, kind='directed search for "%s"' % target)
+    for j, (nq, maxops, bss, ar, bm, num) in enumerate([] if ctx.quick else QP_SIM):
+        rname = 'walks%d' % j
+        cfg = os.path.join(ctx.scratch, 'QuickPart_%s.cfg' % rname)
+        qp_cfg(cfg, nq, maxops, bss, ar, bm, 0, False, 'none', minfinal=maxops, emitmechs=RARE_MECHS)
+        todo.append((rname, cfg, False, {'simulate': 'num=%d' % num, 'depth': maxops + 6, 'seed': ctx.seed + 1, 'workers': 1}))
+        meta[rname] = dict(config=rname, fix=False, NQ=nq, MaxOps=maxops, kind='%d random walks (-simulate)' % num)
+    results = _tlc_parallel(todo, ctx.scratch)
+    for rname, _, _, _ in todo:
+        r = results[rname]
+        m = meta[rname]
+        if not r.ok:
+            if m['fix'] and 'ResOK' in r.out and 'is violated' in r.out:
+                out.notes.append('NOTE property=C08 the proposed repair of QuickPartitioner (BarrierFix) does not satisfy the postcondition '
+                                 'in configuration %s: %s' % (rname, r.error[:300].replace('\n', ' ')))
                 continue
-            for a in QP_ACTIONS:
-                cov[a] += r.coverage.get(a, 0)
+            raise MachineryError('TLC failed on QuickPart.tla (%s): %s' % (rname, r.error or r.out[-1500:]))
+        if 'random walks' in m['kind']:
+            mm = re.search(r'The number of states generated: (\d+)', r.out)
+            r.states = int(mm.group(1)) if mm else 0          # simulation mode reports only this number
+        stats['states'] += r.distinct
+        stats['transitions'] += r.states
+        nfound = 0
+        if not m['fix']:
+            if m['kind'] == 'exhaustive':
+                for a in QP_ACTIONS:
+                    cov[a] += r.coverage.get(a, 0)
             for v in parse_marked(r.out, 'L2VERDICT'):
                 _, bs, n, circ_out, clause = v
                 l2bad.append((bs, n, circ_out, clause))
@@ -482,12 +619,56 @@ def run_model(ctx, out, stats):
                 _, bs, n, circ_out, part_out, npend = v
                 key = (bs, n, json.dumps(circ_out))
                 emitted.setdefault(key, set()).add('RAISED' if npend else _structure_model(circ_out, part_out))
+            for v in parse_marked(r.out, 'QPM'):
+                _, bs, n, circ_out, mechs = v
+                key = (bs, n, json.dumps(circ_out))
+                if key not in found:
+                    nfound += 1
+                    found[key] = {'mechs': set(), 'src': rname}
+                found[key]['mechs'].update(mechs)
+        runs.append(dict(m, states=r.distinct, transitions=r.states, depth=r.depth, wall_s=round(r.wall, 1), circuits_found=nfound))
     vac = [a for a, c in cov.items() if c == 0]
     if vac:
         raise MachineryError('QuickPart.tla: action(s) never taken (vacuous model run): %s' % vac)
+    for name, (target, _, _) in QP_SEARCH.items():
+        if not any(target in f['mechs'] for f in found.values()):
+            raise MachineryError('QuickPart.tla: the directed search found no circuit in which "%s" decides (vacuous search)' % target)
     stats['model_runs'] = runs
     stats['action_coverage'] = cov
-    return emitted, l2bad
+    return emitted, l2bad, found
+
+
+def run_scripts(ctx, scripts, stats):
+    """Phase B: QuickPart.tla follows exactly the given circuits (PrefixMode = "script"), every set-iteration order.
+    scripts = [(bs, nq, circuit)];  returns per script {'outcomes': set, 'mechs': set, 'verdicts': set}."""
+    if not scripts:
+        return []
+    path = os.path.join(ctx.scratch, 'qp_scripts.json')
+    with open(path, 'w') as f:
+        json.dump([{'bs': bs, 'ops': [{'b': b, 'loc': loc} for b, loc in circ]} for bs, _, circ in scripts], f)
+    nq = max(n for _, n, _ in scripts)
+    cfg = os.path.join(ctx.scratch, 'QuickPart_script.cfg')
+    qp_cfg(cfg, nq, max(len(c) for _, _, c in scripts), '{2}', '{1, 2, 3}', 'any', 0, False, 'script')
+    r = common.tlc(QP, cfg, scratch=ctx.scratch, timeout=3000, env={'QP_SCRIPTS': path}, heap='4g')
+    if not r.ok:
+        raise MachineryError('TLC failed on QuickPart.tla (scripts): %s' % (r.error or r.out[-1500:]))
+    stats['states'] += r.distinct
+    stats['transitions'] += r.states
+    res = [{'outcomes': set(), 'mechs': set(), 'verdicts': set()} for _ in scripts]
+    for v in parse_marked(r.out, 'QPS'):
+        _, sid, bs, _n, part_out, npend, mechs, verdict = v
+        e = res[sid - 1]
+        e['outcomes'].add('RAISED' if npend else _structure_model(scripts[sid - 1][2], part_out))
+        e['mechs'].update(mechs)
+        e['verdicts'].add(verdict)
+    missing = [i for i, e in enumerate(res) if not e['outcomes']]
+    if missing:
+        raise MachineryError('QuickPart.tla did not finish %d of %d scripts (not in iteration order?), e.g. %s'
+                             % (len(missing), len(scripts), json.dumps(scripts[missing[0]])))
+    stats['model_runs'].append({'config': 'scripts', 'fix': False, 'NQ': nq, 'MaxOps': max(len(c) for _, _, c in scripts),
+                                'kind': 'every iteration order of %d given circuits' % len(scripts),
+                                'states': r.distinct, 'transitions': r.states, 'depth': r.depth, 'wall_s': round(r.wall, 1)})
+    return res
 
 
 def _pool_map(fn, jobs):
@@ -515,7 +696,7 @@ def key_of(case, clause):
 
 
 def _strip(case):
-    return {k: v for k, v in case.items() if k not in ('recipe', 'npseed', 'cfg_bs', 'src', 'predicted')}
+    return {k: v for k, v in case.items() if k not in ('recipe', 'npseed', 'cfg_bs', 'src', 'predicted', 'binid', 'sid', 'pins', 'mechs')}
 
 
 def run(ctx: Ctx) -> Outcome:
@@ -528,19 +709,21 @@ def run(ctx: Ctx) -> Outcome:
     rng = random.Random(ctx.seed * 7919 + 8)
 
     t0 = time.time()
+    scripts, sinfo, sres = [], [], []
     if ctx.replay:
         job = ctx.replay['replay']['job']
-        jobs = [(job[0], job[1], job[2], job[3])]
-        srcs = ['replay']
-        emitted, l2bad = {}, []
+        jobs = [tuple(job)]
+        infos = [{'src': 'replay'}]
+        emitted, l2bad, found = {}, [], {}
     else:
-        emitted, l2bad = run_model(ctx, out, stats)
-        jobs, srcs = [], []
+        emitted, l2bad, found = run_model(ctx, out, stats)
+        jobs, infos = [], []
         # (1) every circuit the model printed, and every design-level counterexample, into the real QuickPartitioner
+        #     (the Bin.id counter, which decides the set iteration order in the pass, is part of the input)
         enum_keys = sorted(emitted)
         for (bs, n, cj) in enum_keys:
-            jobs.append((recipe_of(n, json.loads(cj)), 'quick', bs, 0))
-            srcs.append('enum')
+            jobs.append((recipe_of(n, json.loads(cj)), 'quick', bs, 0, rng.randrange(8)))
+            infos.append({'src': 'enum'})
         seen_l2 = set()
         for (bs, n, circ_out, clause) in l2bad:
             kk = (bs, n, json.dumps(circ_out))
@@ -548,15 +731,52 @@ def run(ctx: Ctx) -> Outcome:
                 continue
             seen_l2.add(kk)
             if kk not in emitted:
-                jobs.append((recipe_of(n, circ_out), 'quick', bs, 0))
-                srcs.append('l2cex')
+                jobs.append((recipe_of(n, circ_out), 'quick', bs, 0, rng.randrange(8)))
+                infos.append({'src': 'l2cex'})
         # (2) the other partitioners on a seeded sample of the enumerated circuits
         per = 150 if ctx.quick else 2500
         for pn in PARTITIONERS[1:]:
             for (bs, n, cj) in rng.sample(enum_keys, min(per, len(enum_keys))):
                 jobs.append((recipe_of(n, json.loads(cj)), pn, bs, rng.randrange(2 ** 31)))
-                srcs.append('enum')
-        # (3) seeded random circuits, all partitioners
+                infos.append({'src': 'enum'})
+        # (3) model-based test generation: the circuits in which TLC saw a rare mechanism make a difference (exhaustive runs and
+        #     directed searches), a seeded sample per mechanism and source, plus wider circuits that contain them; the model then
+        #     follows exactly these circuits under every iteration order (phase B) and the real pass runs them under every PINS value
+        cap = SCRIPTS_PER_MECH[0 if ctx.quick else 1]
+        fkeys = sorted(found)
+        chosen = set()
+        for m in RARE_MECHS:
+            by_src = {}
+            for k in fkeys:
+                if m in found[k]['mechs']:
+                    by_src.setdefault(found[k]['src'], []).append(k)
+            for src in sorted(by_src):
+                chosen.update(rng.sample(by_src[src], min(cap, len(by_src[src]))))
+        for (bs, n, cj) in sorted(chosen):
+            scripts.append((bs, n, json.loads(cj)))
+            sinfo.append({'src': 'script', 'from': found[(bs, n, cj)]['src']})
+        nbase = len(scripts)
+        for i in rng.sample(range(nbase), min(nbase, 80 if ctx.quick else 1500)):
+            bs, n, circ = scripts[i]
+            rec = embed(recipe_of(n, circ), rng)
+            scripts.append((bs, rec['nq'], circ_of(rec)))
+            sinfo.append({'src': 'embed', 'from': sinfo[i]['from'], 'recipe': rec})
+        sres = run_scripts(ctx, scripts, stats)
+        for i, (bs, n, circ) in enumerate(scripts):
+            rec = sinfo[i].get('recipe') or recipe_of(n, circ)
+            for pin in PINS:
+                jobs.append((rec, 'quick', bs, 0, pin))
+                infos.append({'src': sinfo[i]['src'], 'sid': i})
+        per = 30 if ctx.quick else 400
+        for pn in PARTITIONERS[1:]:
+            for i in rng.sample(range(len(scripts)), min(per, len(scripts))):
+                bs, n, circ = scripts[i]
+                rec = sinfo[i].get('recipe') or recipe_of(n, circ)
+                if pn in ('scan', 'gtqcp', 'tdag', 'cluster') and rng.random() < 0.85:
+                    rec = fit_domain(rec, bs)
+                jobs.append((rec, pn, bs, rng.randrange(2 ** 31)))
+                infos.append({'src': sinfo[i]['src']})
+        # (4) seeded random circuits, all partitioners
         nrand = 90 if ctx.quick else 700
         for pn in PARTITIONERS:
             for i in range(nrand):
@@ -572,72 +792,130 @@ def run(ctx: Ctx) -> Outcome:
                     rec['ops'] = rec['ops'][:250]
                 if pn in ('scan', 'gtqcp', 'tdag', 'cluster') and rng.random() < 0.85:
                     rec = fit_domain(rec, bs)         # these passes refuse operations wider than the block size
-                jobs.append((rec, pn, bs, rng.randrange(2 ** 31)))
-                srcs.append('random')
+                jobs.append((rec, pn, bs, rng.randrange(2 ** 31), rng.randrange(8)))
+                infos.append({'src': 'random'})
 
     t1 = time.time()
     results = _pool_map(observe, jobs)
     t2 = time.time()
     cases, skipped = [], {}
-    for r, s in zip(results, srcs):
+    same = {}          # (script, outcome) -> the case that stands for every pin giving that outcome
+    script_runs = 0
+    unpinned = 0
+    for r, info in zip(results, infos):
         if 'skip' in r:
             skipped[r['skip']] = skipped.get(r['skip'], 0) + 1
             continue
-        r['src'] = s
+        r['src'] = info['src']
+        if r['p'] == 'quick' and r['binid'] is None and not ctx.replay:
+            unpinned += 1
+        if 'sid' in info:
+            script_runs += 1
+            r['sid'] = info['sid']
+            kk = (info['sid'], common.digest([r['out'], r['raised']]))
+            if kk in same:
+                same[kk]['pins'].append(r['binid'])
+                continue
+            r['pins'] = [r['binid']]
+            same[kk] = r
         cases.append(r)
     if not cases:
         raise MachineryError('no case could be observed')
+    if unpinned:
+        out.notes.append('UNOBSERVABLE property=C08 the Bin.id counter of bqskit.passes.partitioning.quick could not be set in %d runs: '
+                         'the order in which QuickPartitioner visits overlapping bins was not controlled there' % unpinned)
 
-    verdicts, st, tr, _ = common.batch_validate(ABS, ABS_CFG, [_strip(c) for c in cases], ctx.scratch, chunk=3000)
+    verdicts, st, tr, _ = common.batch_validate(ABS, ABS_CFG, [_strip(c) for c in cases], ctx.scratch, chunk=3000, parallel=4)
     t3 = time.time()
     stats['states'] += st
     stats['transitions'] += tr
+
+    def model_outcomes(c):
+        """what QuickPart.tla (the model of the unchanged code) allows for this run of QuickPartitioner, or None"""
+        if c['p'] != 'quick':
+            return None
+        if 'sid' in c:
+            return sres[c['sid']]['outcomes']
+        if c['src'] in ('enum', 'l2cex'):
+            return emitted.get((c['cfg_bs'], c['nq'], json.dumps(circ_of(c['recipe']))))
+        return None
     for c in cases:
-        if c['p'] == 'quick' and c['src'] in ('enum', 'l2cex'):
-            kk = (c['cfg_bs'], c['nq'], json.dumps([[1 if o['k'] == 'b' else 0, o['loc']] for o in c['recipe']['ops']]))
-            if kk in emitted:
-                c['predicted'] = ('RAISED' if c['raised'] else _structure_real(c)) in emitted[kk]
-            elif c['src'] == 'l2cex':
-                c['predicted'] = bool(c['raised'])
+        mo = model_outcomes(c)
+        if mo is not None:
+            c['predicted'] = ('RAISED' if c['raised'] else _structure_real(c)) in mo
+        elif c['p'] == 'quick' and c['src'] == 'l2cex':
+            c['predicted'] = bool(c['raised'])
+        if 'sid' in c:
+            c['mechs'] = sorted(sres[c['sid']]['mechs'])
     rejected = {}
     for idx, step, clause, _ in verdicts:
         c = cases[idx]
         rejected[idx] = clause
         item = c['out'][step - 1] if 0 < step <= len(c['out']) else None
         detail = ('%s(block_size=%d) on a %d-qudit circuit with %d operations: clause %s at output item %d%s%s\n'
-                  'input operations (id: kind location): %s' % (
+                  'input operations (id: kind location): %s%s' % (
                       c['p'], c['cfg_bs'], c['nq'], len(c['oploc']), clause, step,
                       (' ' + json.dumps(item)[:400]) if item else '',
                       (' raised ' + c['raised']) if c['raised'] else '',
-                      ' '.join('%d:%s%s' % (i + 1, c['kind'][i], c['oploc'][i]) for i in range(min(len(c['oploc']), 40)))))
+                      ' '.join('%d:%s%s' % (i + 1, c['kind'][i], c['oploc'][i]) for i in range(min(len(c['oploc']), 40))),
+                      ('\nBin.id counter at the start of the run: %s; mechanisms of QuickPart.tla that decide on this circuit: %s; outcome '
+                       'allowed by QuickPart.tla: %s' % (c.get('pins'), ', '.join(c['mechs']), c.get('predicted'))) if 'sid' in c else ''))
         out.violations.append(Violation('C08', clause, key_of(c, clause), detail,
-                                        {'job': [c['recipe'], c['p'], c['cfg_bs'], c['npseed']]}))
+                                        {'job': [c['recipe'], c['p'], c['cfg_bs'], c['npseed'], c['binid']]}))
 
-    # binding of the L2 model: real QuickPartitioner vs QuickPart.tla on the circuits TLC enumerated
+    # binding of the L2 model: real QuickPartitioner vs QuickPart.tla on the circuits TLC enumerated / found
     drift = 0
     compared = 0
+    drift_scripts = set()
+    first_drift = ''
     for idx, c in enumerate(cases):
-        if c['p'] != 'quick' or c['src'] not in ('enum', 'l2cex'):
+        mo = model_outcomes(c)
+        if mo is None:
             continue
-        kk = (c['cfg_bs'], c['nq'], json.dumps([[1 if o['k'] == 'b' else 0, o['loc']] for o in c['recipe']['ops']]))
-        if kk in emitted:
-            compared += 1
-            got = 'RAISED' if c['raised'] else _structure_real(c)
-            if got not in emitted[kk]:
-                drift += 1
-                if drift <= 5:
-                    out.notes.append('DRIFT property=C08 QuickPartitioner(block_size=%d) and QuickPart.tla disagree on the block structure for %s'
-                                     % (c['cfg_bs'], kk[2]))
+        compared += 1
+        if not c['predicted']:
+            drift += 1
+            if 'sid' in c:
+                drift_scripts.add(c['sid'])
+            if not first_drift:
+                first_drift = ('QuickPartitioner(block_size=%d) on %s%s: %s' % (
+                    c['cfg_bs'], json.dumps(circ_of(c['recipe'])),
+                    (' with the Bin.id counter starting at %s (QuickPart.tla: %s decide here)' % (c['pins'], ', '.join(c['mechs']))) if 'sid' in c else '',
+                    'the pass raised' if c['raised'] else 'blocks ' + ' '.join('%s:%s' % (it['loc'], [o['id'] for o in it['ops']]) for it in c['out'])[:300]))
     for (bs, n, circ_out, clause) in l2bad:
         # a design-level counterexample must reproduce on the code (then it is a violation above); otherwise the model drifted
         hit = [i for i, c in enumerate(cases) if c['p'] == 'quick' and c['cfg_bs'] == bs and c['nq'] == n and c['src'] in ('enum', 'l2cex')
-               and [[1 if o['k'] == 'b' else 0, o['loc']] for o in c['recipe']['ops']] == circ_out] if len(l2bad) < 2000 else []
+               and circ_of(c['recipe']) == circ_out] if len(l2bad) < 2000 else []
         if hit and hit[0] not in rejected:
             drift += 1
             out.notes.append('DRIFT property=C08 QuickPart.tla predicts %s for %s (block_size=%d) but the real pass output was accepted'
                              % (clause, json.dumps(circ_out), bs))
-    if drift > 5:
-        out.notes.append('DRIFT property=C08 %d disagreements in total between QuickPartitioner and QuickPart.tla' % drift)
+    if first_drift:
+        # one line (the first case; the count is in the evidence): model and code disagree, which is not a verdict
+        out.notes.insert(0, 'DRIFT property=C08 QuickPartitioner and QuickPart.tla disagree on the block structure in %d of %d compared runs '
+                            '(%d generated circuits), first: %s' % (drift, compared, len(drift_scripts), first_drift))
+
+    # what the generated circuits exercise
+    gen = {'circuits_found_by_tlc': {}, 'scripts': len(scripts), 'scripts_embedded_in_wider_circuits': sum(1 for x in sinfo if x['src'] == 'embed'),
+           'real_runs_of_scripts': script_runs, 'bin_id_values': PINS if scripts else []}
+    for k, f in found.items():
+        for m in f['mechs']:
+            if m in RARE_MECHS:
+                gen['circuits_found_by_tlc'][m] = gen['circuits_found_by_tlc'].get(m, 0) + 1
+    gen['scripts_by_mechanism'] = {m: sum(1 for e in sres if m in e['mechs']) for m in MECHS}
+    gen['scripts_by_width'] = {}
+    for (bs, n, circ) in scripts:
+        gen['scripts_by_width'][str(n)] = gen['scripts_by_width'].get(str(n), 0) + 1
+    gen['scripts_with_order_dependent_model_outcome'] = sum(1 for e in sres if len(e['outcomes']) > 1)
+    per_script = {}
+    for c in cases:
+        if 'sid' in c:
+            per_script.setdefault(c['sid'], set()).add('RAISED' if c['raised'] else _structure_real(c))
+    gen['scripts_with_order_dependent_real_outcome'] = sum(1 for v in per_script.values() if len(v) > 1)
+    gen['model_outcomes_reached_by_real_runs'] = '%d of %d' % (sum(len(per_script.get(i, set()) & e['outcomes']) for i, e in enumerate(sres)),
+                                                               sum(len(e['outcomes']) for e in sres))
+    gen['scripts_where_model_predicts_a_violation'] = sum(1 for e in sres if e['verdicts'] - {'accepted'})
+    gen['scripts_with_drift'] = len(drift_scripts)
 
     by_p, by_src = {}, {}
     for c in cases:
@@ -665,11 +943,13 @@ def run(ctx: Ctx) -> Outcome:
     out.coverage = {
         'states': stats['states'], 'transitions': stats['transitions'],
         'traces_validated_against_impl': len(cases),
-        'evaluations': len(cases), 'distinct_nontrivial': len(nontrivial),
+        'evaluations': len(cases), 'real_pass_runs': len(results) - sum(skipped.values()), 'distinct_nontrivial': len(nontrivial),
         'rule': 'one case = one run of a real partitioning pass (driven as a coroutine) on one circuit, its output and its unfold_all() '
                 'judged by TLC (PartitionAbs.tla); circuits: those enumerated by TLC from QuickPart.tla (all shorter ones, a deterministic '
-                'sample of the longest) and seeded random ones; non-trivial = at least 2 input operations and at least one block in '
-                'the output; distinct by content hash of the whole case',
+                'sample of the longest), those TLC found to exercise a rare mechanism of the algorithm (scripts; run under 8 values of '
+                'the Bin.id counter, runs of one script with the same output count as one case), wider circuits containing them, and '
+                'seeded random ones; non-trivial = at least 2 input operations and at least one block in the output; distinct by '
+                'content hash of the whole case',
         'exhaustive': False,
         'exhaustive_part': 'QuickPart.tla state graphs: ' + '; '.join(
             '%s%s NQ=%d ops<=%d: %d states' % (r['config'], '+fix' if r['fix'] else '', r['NQ'], r['MaxOps'], r['states'])
@@ -678,6 +958,7 @@ def run(ctx: Ctx) -> Outcome:
         'timing_s': {'model_checking': round(t1 - t0, 1), 'real_passes': round(t2 - t1, 1), 'trace_validation': round(t3 - t2, 1)},
         'action_coverage': stats.get('action_coverage', {}),
         'l2_counterexamples': len(l2bad),
+        'model_based_test_generation': gen,
         'model_vs_code_compared': compared, 'drift': drift,
         'by_partitioner': by_p, 'by_source': by_src, 'skipped_outside_domain': skipped,
         'verdicts_by_partitioner_clause': by_clause, 'smallest_rejected': smallest,
